@@ -61,7 +61,88 @@ func asciiGuarded(fn *ssa.Function, call *ssa.Call, str ssa.Value) bool {
 			return true
 		}
 	}
+	// any other spelling of the range check
+	for _, h := range rangeLoopsEntailing(fn, str, func(lc *LinCtx, e ssa.Value) Lin { return lc.Lin(e).addConst(-127) }) {
+		if h.Dominates(call.Block()) && h != call.Block() {
+			return true
+		}
+	}
 	return false
+}
+
+// rangeLoopsEntailing returns the headers of loops over the whole of str in which every path that goes on to the
+// next character entails goal(element) ≤ 0 and every early way out of the loop cannot reach an accepting return.
+func rangeLoopsEntailing(fn *ssa.Function, str ssa.Value, goal func(lc *LinCtx, e ssa.Value) Lin) []*ssa.BasicBlock {
+	var out []*ssa.BasicBlock
+	lcr := NewLinCtx(nil, fn)
+	for _, h := range fn.Blocks {
+		if !isLoopHeader(h) {
+			continue
+		}
+		inLoop := func(b *ssa.BasicBlock) bool {
+			if b == h {
+				return true
+			}
+			if !h.Dominates(b) {
+				return false
+			}
+			for _, pb := range h.Preds {
+				if h.Dominates(pb) && reachableFrom(b, map[*ssa.BasicBlock]bool{h: true})[pb] {
+					return true
+				}
+			}
+			return false
+		}
+		var elems []ssa.Value
+		for _, b := range fn.Blocks {
+			if !inLoop(b) {
+				continue
+			}
+			for _, in := range b.Instrs {
+				if v, ok := in.(ssa.Value); ok {
+					if x, idx, ok := elemRead(v); ok && x == str && fullRangeInduction(idx, func(w ssa.Value) bool { return w == str }) != nil {
+						elems = append(elems, v)
+					}
+				}
+			}
+		}
+		if len(elems) == 0 {
+			continue
+		}
+		all, nLatch := true, 0
+		for _, pb := range h.Preds {
+			if !h.Dominates(pb) {
+				continue
+			}
+			nLatch++
+			f := lcr.FactsOf(MustCondsAtBlock(fn, pb))
+			okL := false
+			for _, e := range elems {
+				if lcr.Entails(f, goal(lcr, e)) {
+					okL = true
+				}
+			}
+			all = all && okL
+		}
+		if nLatch == 0 || !all {
+			continue
+		}
+		exitsReject := true
+		for _, b := range fn.Blocks {
+			if b == h || !inLoop(b) {
+				continue
+			}
+			for _, sb := range b.Succs {
+				if !inLoop(sb) && canReachAccept(fn, sb) {
+					exitsReject = false
+				}
+			}
+		}
+		if exitsReject {
+			out = append(out, h)
+		}
+	}
+	return out
 }
 
 // canonicalInput adds obligations for every normalising / Unicode case-mapping
@@ -173,6 +254,10 @@ func caseFlagsExact(p *Program, fn *ssa.Function, str ssa.Value) (exact bool, re
 				conds := DomConds(pred)
 				if cd, ok := edgeCond(pred, b); ok {
 					conds = append(conds, cd)
+				}
+				// `lo <= c && c <= hi` used as a value (tagless switch case) arrives as a short-circuit φ
+				for k, n := 0, len(conds); k < n; k++ {
+					conds = append(conds, impliedByBoolPhi(conds[k], 0)...)
 				}
 				// the character tested
 				for _, cd := range conds {
